@@ -11,16 +11,16 @@ func init() {
 	registerBFS(bfsCheck{
 		id: "C18",
 		spec: func(tier string) bfs.Spec {
-			d := 5
+			d := 8
 			if tier == "thorough" {
-				d = 10
+				d = 13
 			}
 			return bfs.Spec{Name: "C18", New: func() bfs.System { return c18.New(c18.Bounds{Depth: d}) }, MaxDepth: d, InProcess: true, Workers: 8, Deadline: 10 * time.Minute}
 		},
-		rule: "explicit-state BFS over lifecycle sequences on the real client keeper: create / create with a foreign consensus state / create under a malformed name / upgrade / toggle for all four client types (hence all ordered type pairs), BSC upgrade off an epoch height, update by the authorised account and by an unregistered one, and the local clock passing the delay period (so that an install at an already tracked height must restart the delay); proposals run through the real proposal handler on a cache context as gov does, updates through the real message server; after every successful install: stored state = proposal, status active, every entry that a fresh creation of the same proposal writes (processed time and height, iteration keys, header and root indices, signer and pending-validator records) is present with the same value, a genuine proof at the installed height (real ICS-23 proof / real trie proof / TSS signer) is refused before the delay and honoured after it, and a valid header from the authorised account is accepted; failures must leave the client store untouched",
+		rule: "explicit-state BFS over lifecycle sequences on the real client keeper: create / create with a foreign consensus state / create under ten malformed names (too short, empty, too long, separator, inner blank, blank/newline/tab padding of the tracked and of a fresh name) / upgrade / toggle for all four client types (hence all ordered type pairs), BSC upgrade off an epoch height, update by the authorised account and by an unregistered one, and the local clock passing the delay period (so that an install at an already tracked height must restart the delay); proposals run through the real proposal handler on a cache context as gov does, updates through the real message server; after every successful install: stored state = proposal, status active, every entry that a fresh creation of the same proposal writes (processed time and height, iteration keys, header and root indices, signer and pending-validator records) is present with the same value, a genuine proof at the installed height (real ICS-23 proof / real trie proof / TSS signer) is refused before the delay and honoured after it, and a valid header from the authorised account is accepted; failures must leave the client store untouched",
 		assume: []string{"proof systems themselves are C07/C08's subject; here one genuine proof per type probes initialisation", "the fixture holds headers for two installs and two updates per type"},
 		bounds: func(tier string) map[string]interface{} {
-			return map[string]interface{}{"depth": map[string]int{"quick": 5, "thorough": 10}[tier], "client_types": 4}
+			return map[string]interface{}{"depth": map[string]int{"quick": 8, "thorough": 13}[tier], "client_types": 4}
 		},
 		minClasses: 6,
 	})
